@@ -40,10 +40,13 @@ try:
     shutil.copy(demo, os.path.join(wt, 'tests', 'demo.rs'))
     rc1, out1 = sh('cargo test --offline --test demo 2>&1 | tail -5', cwd=wt)
     demo_fails_with = 'test result: FAILED' in out1 or 'error: test failed' in out1
-    sh('git checkout -- src', cwd=wt)
+    sh('git checkout -- src && git clean -fdq src', cwd=wt)     # (a patch may add files)
     rc2, out2 = sh('cargo test --offline --test demo 2>&1 | grep -E "^test result"', cwd=wt)
     demo_passes_without = 'test result: ok' in out2
-    sh('git apply %s' % os.path.abspath(patch), cwd=wt)
+    rc3, out3 = sh('git apply %s' % os.path.abspath(patch), cwd=wt)
+    ran['reapply'] = rc3 == 0
+    if rc3 != 0:
+        raise SystemExit('patch could not be re-applied: ' + out3[:300])
     shutil.rmtree(os.path.join(wt, 'tests'))
     ran.update(suite_ok=suite_ok, demo_fails_with_patch=demo_fails_with, demo_passes_without_patch=demo_passes_without)
     results = {}
